@@ -47,6 +47,27 @@ def is_decode(t, inner):
     return enc is not None and enc[0] == "c" and enc[1] in UTF8 and err == ("c", HANDLER)
 
 
+def _items_of(t, acc=None, depth=0):
+    """the iterated sources S of every ("item", S) inside a term"""
+    acc = set() if acc is None else acc
+    if isinstance(t, tuple) and depth < 40:
+        if len(t) == 2 and t[0] == "item" and isinstance(t[1], tuple):
+            acc.add(t[1])
+        else:
+            for x in t:
+                if isinstance(x, tuple):
+                    _items_of(x, acc, depth + 1)
+    return acc
+
+
+def _subst_item(t, S, depth=0):
+    if not isinstance(t, tuple) or depth > 40:
+        return t
+    if t == ("item", S):
+        return ("p", "\0elt")
+    return tuple(_subst_item(x, S, depth + 1) if isinstance(x, tuple) else x for x in t)
+
+
 def check(ctx, R):
     T = terms(ctx)
     for roles in all_roles(ctx):
@@ -192,6 +213,14 @@ def _streaming_service(ctx, R, roles, T):
             # `for x in S: yield x`  ->  the iterated S (only the identity loop is accepted)
             if t[0] == "item" and yn.loops and len(loop_nodes(g, yn.loops[-1])) == 2:
                 t = t[1]
+            elif yn.loops and len(loop_nodes(g, yn.loops[-1])) == 2 and _items_of(t):
+                # `for x in S: yield E(x)` (the loop does nothing else)  ->  the same as yielding from (E(x) for x in S)
+                srcs = _items_of(t)
+                if len(srcs) == 1:
+                    S = next(iter(srcs))
+                    t = ("map", _subst_item(t, S), S, ())
+                else:
+                    t = ("per-item", t)
             else:
                 t = ("per-item", t)
         facts = df.facts(yn)
